@@ -103,6 +103,12 @@ fn all_seeds_prof(alphabet: Vec<Op>, tiny_depth: usize, q: bool) -> Profile {
     prof("every seed x alphabet (shallow)", seeds, alphabet, if TINY { tiny_depth } else { 1 })
 }
 
+/// The same without the two very large seeds (crash / damage / fault engines).
+fn light_seeds_prof(alphabet: Vec<Op>, tiny_depth: usize, q: bool) -> Profile {
+    let seeds = if TINY { all_seeds_light() } else { thin(all_seeds_light(), 4, q) };
+    prof("every seed but the two largest x alphabet (shallow)", seeds, alphabet, if TINY { tiny_depth } else { 1 })
+}
+
 fn prof(name: &str, seeds: Vec<Seed>, alphabet: Vec<Op>, depth: usize) -> Profile {
     Profile {
         name: name.to_string(),
@@ -240,7 +246,7 @@ pub fn run(part: &mut Part) {
             // by a completed call may be reachable again
             let mut cseeds = vec![seed_empty_old(), seed_gc_ready(), seed_two_files(), seed_future()];
             cseeds.extend(gc_spill_seeds().into_iter().step_by(if q { 3 } else { 1 }));
-            let cprofiles = vec![prof("GC seeds x A_write (crash)", cseeds, a_write(), if TINY { if q { 2 } else { 3 } } else { 1 }), all_seeds_prof(a_write(), if q { 1 } else { 2 }, q)];
+            let cprofiles = vec![prof("GC seeds x A_write (crash)", cseeds, a_write(), if TINY { if q { 2 } else { 3 } } else { 1 }), light_seeds_prof(a_write(), if q { 1 } else { 2 }, q)];
             let ccfgs: Vec<CrashCfg> = seeds_hash.iter().map(|(hs, _)| CrashCfg {
                 property: "C04", oracle: Oracle::C04, policy: PolicyCfg::Default, hash_seed: *hs, power_loss: false, second_crash: true, cont_struct: 1, cont_other: if q { 0 } else { 1 }, initial_open: false,
             }).collect();
@@ -275,7 +281,7 @@ pub fn run(part: &mut Part) {
             let cseeds = thin(cseeds, 3, q);
             let mut calpha = a_write();
             calpha.push(Op::app(QA, Pos::Auto, Sz::XL));
-            let cprofiles = vec![prof("multi-file seeds x (A_write + XL), crash + recovery", cseeds, calpha.clone(), if TINY { if q { 2 } else { 3 } } else { 1 }), all_seeds_prof(calpha, if q { 1 } else { 2 }, q)];
+            let cprofiles = vec![prof("multi-file seeds x (A_write + XL), crash + recovery", cseeds, calpha.clone(), if TINY { if q { 2 } else { 3 } } else { 1 }), light_seeds_prof(calpha, if q { 1 } else { 2 }, q)];
             let ccfgs: Vec<CrashCfg> = [PolicyCfg::Default, PolicyCfg::DoNothing].iter().map(|pol| CrashCfg {
                 property: "C06", oracle: Oracle::C06, policy: *pol, hash_seed: 0, power_loss: false, second_crash: false, cont_struct: 0, cont_other: 0, initial_open: false,
             }).collect();
@@ -357,7 +363,7 @@ pub fn run(part: &mut Part) {
                 vec![
                     prof("empty x (A_write + XL)", vec![seed_empty()], aw.clone(), if q { 3 } else { 4 }),
                     prof("seeds x (A_write + XL)", seeds, aw.clone(), if q { 2 } else { 3 }),
-                    all_seeds_prof(aw, if q { 1 } else { 2 }, q),
+                    light_seeds_prof(aw, if q { 1 } else { 2 }, q),
                 ]
             } else {
                 let mut s = vec![seed_empty()];
@@ -403,7 +409,7 @@ pub fn run(part: &mut Part) {
             alpha.push(Op::Persist(true));
             alpha.push(Op::app(QA, Pos::Auto, Sz::XL));
             let profiles = if TINY {
-                vec![prof("seeds x (A_write + Persist + XL)", seeds, alpha.clone(), if q { 2 } else { 3 }), all_seeds_prof(alpha, if q { 1 } else { 2 }, q)]
+                vec![prof("seeds x (A_write + Persist + XL)", seeds, alpha.clone(), if q { 2 } else { 3 }), light_seeds_prof(alpha, if q { 1 } else { 2 }, q)]
             } else {
                 vec![prof("seeds x (A_write + Persist + XL)", seeds, alpha, if q { 1 } else { 2 })]
             };
@@ -533,7 +539,7 @@ pub fn run(part: &mut Part) {
             let mut calpha = a_write();
             calpha.push(Op::app(QA, Pos::Auto, Sz::XL));
             calpha.push(Op::app(QB, Pos::Auto, Sz::XL));
-            let cprofiles = vec![prof("seeds x (A_write + XL), crash inside the last call", cseeds, calpha.clone(), if TINY { if q { 2 } else { 3 } } else { 1 }), all_seeds_prof(calpha, 1, q)];
+            let cprofiles = vec![prof("seeds x (A_write + XL), crash inside the last call", cseeds, calpha.clone(), if TINY { if q { 2 } else { 3 } } else { 1 }), light_seeds_prof(calpha, 1, q)];
             let cdescr: Vec<_> = cprofiles.iter().map(|p| p.describe()).collect();
             let stats = explore(&cprofiles, part.seed, |env, leaf| crate::crash::c18_crash_leaf(env, leaf));
             part.stats.merge(stats);
@@ -546,7 +552,7 @@ pub fn run(part: &mut Part) {
             let seeds = vec![seed_ab(), seed_two_files(), seed_three_files(), seed_interleaved(), seed_gc_ready()];
             let mut alpha = a_write();
             alpha.push(Op::app(QA, Pos::Auto, Sz::XL));
-            let profiles = vec![prof("1-3 file seeds x (A_write + XL)", seeds, alpha.clone(), if TINY { if q { 2 } else { 3 } } else if q { 1 } else { 2 }), all_seeds_prof(alpha, 1, q)];
+            let profiles = vec![prof("1-3 file seeds x (A_write + XL)", seeds, alpha.clone(), if TINY { if q { 2 } else { 3 } } else if q { 1 } else { 2 }), light_seeds_prof(alpha, 1, q)];
             let descr: Vec<_> = profiles.iter().map(|p| p.describe()).collect();
             let stats = explore(&profiles, part.seed, |env, leaf| {
                 crate::fault::fault_leaf(env, leaf, false);
@@ -597,7 +603,7 @@ pub fn run(part: &mut Part) {
             let mut seeds = vec![seed_empty(), seed_ab(), seed_two_files(), seed_recreated(), seed_recreated_from_zero(), seed_gc_ready()];
             seeds.extend(cursor_seeds(&[0, 1], &[0, 7, 8]));
             let seeds = thin(seeds, 2, q);
-            let profiles = vec![prof("seeds x (A_write + frame-shaped payload)", seeds, alpha, if TINY { if q { 1 } else { 2 } } else { 1 }), all_seeds_prof(vec![Op::app(QA, Pos::Auto, Sz::S3), Op::app(QA, Pos::Auto, Sz::Emb), Op::app(QB, Pos::Auto, Sz::L), Op::Trunc { q: QA, at: Tr::Last }], 1, q)];
+            let profiles = vec![prof("seeds x (A_write + frame-shaped payload)", seeds, alpha, if TINY { if q { 1 } else { 2 } } else { 1 }), light_seeds_prof(vec![Op::app(QA, Pos::Auto, Sz::S3), Op::app(QA, Pos::Auto, Sz::Emb), Op::app(QB, Pos::Auto, Sz::L), Op::Trunc { q: QA, at: Tr::Last }], 1, q)];
             let descr: Vec<_> = profiles.iter().map(|p| p.describe()).collect();
             let stats = explore(&profiles, part.seed, |env, leaf| crate::damage::c08_leaf(env, leaf));
             part.stats.merge(stats);
@@ -611,7 +617,7 @@ pub fn run(part: &mut Part) {
             seeds.extend(cursor_seeds(&[0, 3], &[0, 6, 7, 8]));
             let mut alpha = a_write();
             alpha.push(Op::Trunc { q: QA, at: Tr::Beyond });
-            let profiles = vec![prof("seeds x A_write", seeds, alpha, if TINY { if q { 2 } else { 3 } } else if q { 1 } else { 2 }), all_seeds_prof(vec![Op::app(QA, Pos::Auto, Sz::S3), Op::app(QB, Pos::Auto, Sz::L), Op::Trunc { q: QA, at: Tr::Last }, Op::Delete(QA)], 1, q)];
+            let profiles = vec![prof("seeds x A_write", seeds, alpha, if TINY { if q { 2 } else { 3 } } else if q { 1 } else { 2 }), light_seeds_prof(vec![Op::app(QA, Pos::Auto, Sz::S3), Op::app(QB, Pos::Auto, Sz::L), Op::Trunc { q: QA, at: Tr::Last }, Op::Delete(QA)], 1, q)];
             let descr: Vec<_> = profiles.iter().map(|p| p.describe()).collect();
             let stats = explore(&profiles, part.seed, |env, leaf| crate::damage::c09_leaf(env, leaf));
             part.stats.merge(stats);
@@ -638,7 +644,7 @@ pub fn run(part: &mut Part) {
             let mut seeds2 = vec![seed_empty(), seed_ab(), seed_two_files(), seed_recreated_from_zero()];
             seeds2.extend(cursor_seeds(&[0, 3], &[0, 7, 8]));
             let seeds2 = thin(seeds2, 3, q);
-            let profiles2 = vec![prof("seeds x A_write (in-place faults)", seeds2, alpha2.clone(), 1), all_seeds_prof(vec![Op::app(QA, Pos::Auto, Sz::S3), Op::Trunc { q: QA, at: Tr::Last }], 1, q)];
+            let profiles2 = vec![prof("seeds x A_write (in-place faults)", seeds2, alpha2.clone(), 1), light_seeds_prof(vec![Op::app(QA, Pos::Auto, Sz::S3), Op::Trunc { q: QA, at: Tr::Last }], 1, q)];
             let descr2: Vec<_> = profiles2.iter().map(|p| p.describe()).collect();
             let stats = explore(&profiles2, part.seed, |env, leaf| crate::damage::c10_inplace_leaf(env, leaf));
             part.stats.merge(stats);
